@@ -54,7 +54,7 @@ Proof.
   assert (L2 : index_byte c_rbr hp = Some (S (length h))).
   { rewrite E2. rewrite index_byte_app; auto. intros [G|G]; [discriminate|auto]. }
   rewrite L1. unfold hp at 1. cbv beta iota. change (Ascii.eqb c_lbr c_lbr) with true. cbv iota.
-  rewrite L2.
+  fold hp. rewrite L2.
   assert (LH : length hp = S (length h + S (S (length p)))).
   { unfold hp. simpl. rewrite app_length. simpl. reflexivity. }
   rewrite LH.
@@ -96,8 +96,11 @@ Proof.
     destruct (Nat.eqb (S e) (length hp)) eqn:Q1; [discriminate|].
     destruct (Nat.eqb (S e) i) eqn:Q2.
     + apply Nat.eqb_eq in Q2.
-      destruct (has_byte c_lbr (skipn 1 hp)) eqn:B1; [discriminate|].
-      destruct (has_byte c_rbr (skipn (S e) hp)) eqn:B2; [discriminate|].
+      remember (skipn 1 hp) as s1 eqn:Hs1.
+      remember (skipn (S e) hp) as s2 eqn:Hs2.
+      remember (skipn (S i) hp) as s3 eqn:Hs3.
+      destruct (has_byte c_lbr s1) eqn:B1; [discriminate|].
+      destruct (has_byte c_rbr s2) eqn:B2; [discriminate|].
       inversion H; subst h p; clear H.
       (* u = u' ++ [']'] and w' = ':' :: w *)
       assert (E3 : (u' ++ [c_rbr]) ++ w' = u ++ c_colon :: w).
@@ -111,14 +114,13 @@ Proof.
       destruct u' as [|b h0].
       { rewrite E' in Ehp. simpl in Ehp. inversion Ehp. }
       assert (b = c_lbr) by (rewrite E' in Ehp; simpl in Ehp; inversion Ehp; auto). subst b.
-      assert (S1 : skipn 1 hp = h0 ++ c_rbr :: c_colon :: w) by (rewrite E'; reflexivity).
-      rewrite S1 in *.
+      assert (S1 : s1 = h0 ++ c_rbr :: c_colon :: w) by (rewrite Hs1, E'; reflexivity).
+      assert (S2 : s2 = c_colon :: w).
+      { rewrite Hs2, E'. rewrite <- Le. apply skipn_S_app_len. }
+      assert (S3 : s3 = w) by (rewrite Hs3, E, <- Li; apply skipn_S_app_len).
+      clear Hs1 Hs2 Hs3. subst s1 s2 s3.
       apply has_byte_false in B1. apply in_app_not in B1. destruct B1 as [B1a B1b].
-      assert (S2 : skipn (S e) hp = c_colon :: w).
-      { rewrite E'. rewrite <- Le. apply skipn_S_app_len. }
-      rewrite S2 in B2. apply has_byte_false in B2.
-      assert (S3 : skipn (S i) hp = w) by (rewrite E, <- Li; apply skipn_S_app_len).
-      rewrite S3.
+      apply has_byte_false in B2.
       assert (F1 : firstn (e - 1) (h0 ++ c_rbr :: c_colon :: w) = h0).
       { rewrite <- Le. simpl. replace (length h0 - 0) with (length h0) by lia. apply firstn_app_len. }
       rewrite F1. repeat split.
@@ -130,13 +132,13 @@ Proof.
       * right. rewrite E'. reflexivity.
     + destruct (nth_error hp (S e)); discriminate.
   - apply aeqb_false in E0.
-    destruct (has_byte c_colon (firstn i hp)) eqn:B0; [discriminate|].
+    assert (F : firstn i hp = u) by (rewrite E, <- Li; apply firstn_app_len).
+    assert (S3 : skipn (S i) hp = w) by (rewrite E, <- Li; apply skipn_S_app_len).
+    rewrite F, S3 in H.
+    destruct (has_byte c_colon u) eqn:B0; [discriminate|].
     destruct (has_byte c_lbr hp) eqn:B1; [discriminate|].
     destruct (has_byte c_rbr hp) eqn:B2; [discriminate|].
     inversion H; subst h p; clear H.
-    assert (F : firstn i hp = u) by (rewrite E, <- Li; apply firstn_app_len).
-    assert (S3 : skipn (S i) hp = w) by (rewrite E, <- Li; apply skipn_S_app_len).
-    rewrite F in *. rewrite S3.
     apply has_byte_false in B0, B1, B2. rewrite E in B1, B2.
     apply in_app_not in B1, B2. destruct B1 as [B1a B1b], B2 as [B2a B2b].
     repeat split; auto.
